@@ -5,6 +5,7 @@ import (
 	"sync/atomic"
 	"time"
 
+	"github.com/arloliu/go-secs/v2/internal/vhook"
 	"github.com/arloliu/go-secs/v2/logger"
 )
 
@@ -249,6 +250,7 @@ func (s *supervisor) run() {
 		case <-s.stopCh:
 			return
 		case ev := <-s.events:
+			vhook.At("hsms.sup.beforeStep")
 			s.step(ev)
 		}
 	}
